@@ -541,8 +541,17 @@ func nonEmptyValue(c *Ctx, v ssa.Value, cache map[*ssa.Parameter]int, depth int)
 	case *ssa.Parameter:
 		return nonEmptyParam(c, x, cache, depth+1)
 	case *ssa.Phi:
-		for _, e := range x.Edges {
-			if !nonEmptyValue(c, e, cache, depth+1) {
+		for i, e := range x.Edges {
+			if nonEmptyValue(c, e, cache, depth+1) {
+				continue
+			}
+			// path-sensitive: the edge is taken only where 0 < len(e) has been established
+			pred := x.Block().Preds[i]
+			fs := allFacts(pred)
+			if ifi, ok := pred.Instrs[len(pred.Instrs)-1].(*ssa.If); ok && pred.Succs[0] != pred.Succs[1] {
+				fs = append(fs, expandFacts([]Fact{{ifi.Cond, pred.Succs[0] == x.Block(), ifi}})...)
+			}
+			if !impliesLess(linExpr{ok: true}, e, 0, ltFacts(fs)) {
 				return false
 			}
 		}
